@@ -17,13 +17,23 @@ import tlegen  # noqa: E402
 
 ID = "C10"
 LEAN_TARGETS = ["PV.Props.C10"]
+# T-D: functions translated from the source by harness/pytrans.py, proved equal to the model (DESIGN section 0)
+EQUIV = {"PV.Equiv.TranslatedCollection": ["decode_lines_eq", "get_tles_from_url_first", "get_tles_from_url_all",
+                                           "get_first_tle_eq", "get_first_tle_sources", "get_tles_from_uris_all",
+                                           "read_tle_eq_readTle"],
+         "PV.Equiv.TranslatedPlatforms": ["read_platform_numbers_eq"]}
 RULE = ("generated collections of 0-30 checksum-valid entries x naming style {all named, none named, mixed} x line ending "
         "{LF, CRLF, mixed} x padding / blank lines / missing final newline x duplicates and registered catalogue numbers in any "
         "order; per collection the requested names {registered alias with/without an entry, alias in other case/padding, exact "
         "name line, proper prefix and extension of a name line, unknown, empty, blank} x source kinds {path, io.StringIO, MMAM "
-        "XML admin message}; bulk reads (Downloader.read_tle_files over 1-2 files, read_xml_admin_messages); generated "
-        "platforms files through read_platform_numbers and, in fresh interpreters with PYORBITAL_CONFIG_PATH, as the active "
-        "registry; ill-formed texts (truncated, name line at the end) for the exception classes. A case is one read; "
+        "XML admin message}; collections in which an entry occurs again verbatim (adjacent and non-adjacent, 2-3 times); the "
+        "same reads of given collections while the TLES environment variable points at OTHER collections (holding the "
+        "requested platform with different elements, or lacking it; restored afterwards); bulk reads "
+        "(Downloader.read_tle_files over 1-2 files, read_xml_admin_messages, fetch_plain_tle over 1-2 URIs and "
+        "fetch_spacetrack with `requests` interposed); generated platforms files (names of several words with '#', digits, "
+        "tabs, leading/trailing blanks; comment lines with '#' in column 0) through read_platform_numbers and, in fresh "
+        "interpreters with PYORBITAL_CONFIG_PATH, as the active registry, with requests for registered aliases and for "
+        "their leading words; ill-formed texts (truncated, name line at the end) for the exception classes. A case is one read; "
         "distinct = (collection text, platforms file, requested name, source kind)")
 ASSUMPTIONS = [
     "ASCII text (str.strip/split/upper on non-ASCII is outside the model)",
@@ -122,6 +132,53 @@ def gen_entries(rng, n, style, reg_items):
     return entries
 
 
+def with_repeats(rng, entries, style, cap=30):
+    """Duplicates: some entries occur again verbatim (the same two element lines; in the mixed style the name line of the
+    copy may be present or not): right after the original or somewhere else, 2-3 occurrences in all."""
+    out = [dict(e) for e in entries]
+    if not out:
+        return out
+    for _ in range(rng.randrange(1, 4)):
+        i = rng.randrange(len(out))
+        for _ in range(rng.choice([1, 1, 2])):
+            c = dict(out[i])
+            if style == "mixed" and rng.random() < 0.4:
+                c["name"] = c["nm"] if c["name"] is None else None
+            j = i + 1 if rng.random() < 0.5 else rng.randrange(len(out) + 1)
+            if len(out) < cap:
+                out.insert(j, c)
+                if j <= i:
+                    i += 1
+            elif j < len(out) and j != i:
+                out[j] = c
+    return out
+
+
+def gen_archive(rng, entries, reqs, reg_items):
+    """OTHER collections for the TLES environment variable to point at while a given collection is read: for some of the
+    requests an entry that would qualify there (same name / registered catalogue number, different elements), for others
+    nothing.  -> [(file name, text)], at least one file."""
+    regu = {k.upper(): v for k, v in reg_items}
+
+    def fresh(sat, name):
+        _, l1, l2 = tlegen.random_tle(rng, "any", overrides={"satnum": sat})
+        return {"name": name, "l1": l1, "l2": l2, "sat": sat, "nm": name}
+    arch = []
+    for _, req in reqs:
+        u = req.strip().upper()
+        if u and rng.random() < 0.6:
+            arch.append(fresh(regu.get(u) or "%05d" % rng.randrange(100000), u if rng.random() < 0.7 else rng.choice(NAME_POOL)))
+    for e in entries:
+        if rng.random() < 0.3:
+            arch.append(fresh(e["sat"], e["nm"]))
+    for _ in range(rng.randrange(0, 3)):
+        arch.append(fresh("%05d" % rng.randrange(100000), rng.choice(NAME_POOL)))
+    rng.shuffle(arch)
+    k = rng.randrange(len(arch) + 1) if rng.random() < 0.4 else len(arch)
+    parts = [arch[:k]] + ([arch[k:]] if k < len(arch) or rng.random() < 0.2 else [])
+    return [["a%d.tle" % i, render(rng, p)] for i, p in enumerate(parts)]
+
+
 def render(rng, entries, blanks=True):
     """Text of the collection: per-collection line ending policy, padding, blank lines between entries."""
     pol = rng.choice(["lf", "lf", "crlf", "mixed"])
@@ -200,6 +257,11 @@ def requests_for(rng, entries, reg_items):
             reqs.append(("alias", rng.choice(mixed)))
     if absent:
         reqs.append(("alias_absent", vary(rng, rng.choice(absent))))
+    multi = [p for p, _ in reg_items if len(p.split()) > 1]
+    if multi:
+        # the leading words of a registered name of several words are not that name (unless registered themselves)
+        p = rng.choice(multi).split()
+        reqs.append(("alias_words", vary(rng, " ".join(p[:rng.randrange(1, len(p))]))))
     names = [e["name"] for e in entries if e["name"] is not None]
     pool = names or [e["nm"] for e in entries] or ["SAT"]
     nm = rng.choice(pool)
@@ -220,20 +282,25 @@ def requests_for(rng, entries, reg_items):
 
 
 def gen_platforms_text(rng, entries):
-    """A custom platforms.txt: comments, blank rows, multi-word names, tabs, duplicates, rows with one token."""
+    """A custom platforms.txt: comment lines ('#' in column 0), blank rows, names of several words - with digits and with
+    '#' inside a word or leading a later word -, tabs, leading and trailing blanks, duplicates, rows with one token.  The
+    first word of a data row never starts with '#', so that no reading of "comment line" makes a data row a comment."""
     rows = ["# custom platforms file", "#"]
     sats = [e["sat"] for e in entries if e["sat"].strip() == e["sat"]]
-    words = ["Metop", "B", "NOAA", "19", "My", "Sat", "EOS-Aqua", "iss", "(zarya)", "Alpha", "x"]
+    first = ["Metop", "NOAA", "My", "Sat", "EOS-Aqua", "iss", "Alpha", "x", "Station", "Flock", "A#B", "No.#3", "C#", "4"]
+    later = ["B", "19", "Sat", "(zarya)", "x", "#1", "#7", "#", "4", "2", "No.#3", "##", "1A", "#12345", "20"]
     n = rng.randrange(3, 12)
     for _ in range(n):
         k = rng.random()
         if k < 0.1:
-            rows.append(rng.choice(["", "   ", "# Foo 12345", "lonely", "#Metop-B 11111"]))
+            rows.append(rng.choice(["", "   ", "# Foo 12345", "lonely", "#Metop-B 11111", "#\tx 22222", "\t", "#lonely"]))
             continue
-        nm = [rng.choice(words) for _ in range(rng.randrange(1, 4))]
+        nm = [rng.choice(first)] + [rng.choice(later) for _ in range(rng.randrange(0, 4))]
         sep = rng.choice([" ", "  ", "\t", " \t "])
         num = rng.choice(sats) if (sats and rng.random() < 0.6) else "%05d" % rng.randrange(100000)
-        rows.append((" " if rng.random() < 0.1 else "") + sep.join(nm) + sep + num + (" " if rng.random() < 0.2 else ""))
+        lead = rng.choice([" ", "  ", "\t", "   \t"]) if rng.random() < 0.15 else ""
+        trail = rng.choice([" ", "   ", "\t", " \t "]) if rng.random() < 0.25 else ""
+        rows.append(lead + sep.join(nm) + rng.choice([sep, sep, "\t", "   "]) + num + trail)
     data = [r for r in rows if not r.startswith("#") and len(r.split()) >= 2]
     if data and rng.random() < 0.5:
         rows.append(" ".join(rng.choice(data).split()[:-1]) + " 99999")        # a later duplicate overwrites
@@ -268,8 +335,88 @@ def _outcome_of_exc(e, tlefile):
     return None
 
 
+class _Reply:
+    def __init__(self, text, status=200):
+        self.status_code, self.text, self.content, self.ok = status, text, text.encode("utf-8"), status < 400
+
+
+class _Interposed:
+    """requests.get answers 200 with the body registered for the URI, requests.Session logs in (200) and answers its query
+    with *session_body*, for the duration of the block (no network)."""
+
+    def __init__(self, table, session_body=None):
+        import requests
+        self.rq, self.table, self.session_body = requests, table, session_body
+
+    def __enter__(self):
+        rq, me = self.rq, self
+        self.saved = (rq.get, rq.post, rq.Session, rq.request)
+
+        def fake_get(url, **kw):
+            return _Reply(me.table[url])
+
+        class FakeSession:
+            def __init__(self, *a, **k):
+                pass
+
+            def __enter__(self):
+                return self
+
+            def __exit__(self, *a):
+                return False
+
+            def close(self):
+                pass
+
+            def post(self, url, data=None, **kw):
+                return _Reply("")
+
+            def get(self, url, **kw):
+                return _Reply(me.session_body)
+
+        def refuse(*a, **k):
+            raise RuntimeError("unexpected request")
+
+        rq.get, rq.post, rq.Session, rq.request = fake_get, refuse, FakeSession, refuse
+        return self
+
+    def __exit__(self, *a):
+        rq = self.rq
+        rq.get, rq.post, rq.Session, rq.request = self.saved
+        return False
+
+
+class _Environ:
+    """TLES set to *value* for the duration of the block (None: left as it is); restored afterwards."""
+
+    def __init__(self, value):
+        self.value = value
+
+    def __enter__(self):
+        self.had, self.saved = "TLES" in os.environ, os.environ.get("TLES")
+        if self.value is not None:
+            os.environ["TLES"] = self.value
+        return self
+
+    def __exit__(self, *a):
+        if self.value is not None:
+            if self.had:
+                os.environ["TLES"] = self.saved
+            else:
+                os.environ.pop("TLES", None)
+        return False
+
+
 def exec_jobs(jobs):
     """Run jobs against the pyorbital on sys.path (current interpreter)."""
+    res = []
+    for job in jobs:
+        with _Environ(job.get("tles")):
+            res += _exec_jobs([job])
+    return res
+
+
+def _exec_jobs(jobs):
     from pyorbital import tlefile
 
     class Probe(tlefile.Tle):
@@ -309,6 +456,22 @@ def exec_jobs(jobs):
                 dl = tlefile.Downloader({"downloaders": {key: {"paths": job["files"]}}})
                 try:
                     ts = getattr(dl, key)()
+                    res.append(["ok"] + [[t.line1, t.line2] for t in ts])
+                except BaseException as e:  # noqa
+                    res.append(_outcome_of_exc(e, tlefile) or ["exc", type(e).__name__, str(e)[:80]])
+            elif op in ("bulk_plain", "bulk_spacetrack"):
+                uris = ["http://pv.invalid/tle/%d.txt" % i for i in range(len(job["bodies"]))]
+                try:
+                    if op == "bulk_plain":
+                        with _Interposed(dict(zip(uris, job["bodies"]))):
+                            d = tlefile.Downloader({"downloaders": {"fetch_plain_tle": {"src": uris}}}).fetch_plain_tle()
+                        if list(d.keys()) != ["src"]:
+                            raise RuntimeError("sources returned: %r" % list(d.keys()))
+                        ts = d["src"]
+                    else:
+                        with _Interposed({}, job["bodies"][0]):
+                            ts = tlefile.Downloader({"platforms": {25544: "ISS"}, "downloaders": {"fetch_spacetrack": {
+                                "user": "u", "password": "p"}}}).fetch_spacetrack()
                     res.append(["ok"] + [[t.line1, t.line2] for t in ts])
                 except BaseException as e:  # noqa
                     res.append(_outcome_of_exc(e, tlefile) or ["exc", type(e).__name__, str(e)[:80]])
@@ -401,10 +564,23 @@ class World:
         self.jobs.append(job)
         self.meta.append(meta)
 
-    def add_reads(self, entries, text, xml, requests, wellformed, xml_items=None, reuse=False):
+    def archive(self, files):
+        """the collections *files* in a directory of their own -> glob pattern for TLES"""
+        self.nfile += 1
+        d = os.path.join(self.tmpdir, "%s-arch%d" % (self.tag, self.nfile))
+        os.makedirs(d, exist_ok=True)
+        for name, text in files:
+            with open(os.path.join(d, name), "w", newline="") as f:
+                f.write(text)
+        return os.path.join(d, "*.tle")
+
+    def add_reads(self, entries, text, xml, requests, wellformed, xml_items=None, reuse=False, tles_files=None,
+                  kinds=("path", "stringio", "xml")):
         """read jobs of one collection over the three source kinds (reuse: under the paths of the previous collection,
-        which are rewritten in place when the first job of this collection runs)"""
+        which are rewritten in place when the first job of this collection runs; tles_files: while the TLES environment
+        variable points at these other collections)"""
         pending = []
+        tles = self.archive(tles_files) if tles_files is not None else None
         if reuse and getattr(self, "last_paths", None) and (xml is None or self.last_paths[1]):
             fpath, xpath = self.last_paths[0], (self.last_paths[1] if xml is not None else None)
             pending = [[fpath, text]] + ([[xpath, xml]] if xml is not None else [])
@@ -414,10 +590,12 @@ class World:
         self.last_paths = (fpath, xpath if xml is not None else getattr(self, "last_paths", (None, None))[1])
         xml_lines_text = "\n".join(x for it in xml_items for x in it) if xml is not None else None
         for cls, req in requests:
-            for kind in ("path", "stringio", "xml"):
+            for kind in kinds:
                 if kind == "xml" and xml is None:
                     continue
                 job = {"op": "read", "platform": req, "kind": kind}
+                if tles is not None:
+                    job["tles"] = tles
                 if pending:
                     job["write"], pending = pending, []
                 if kind == "stringio":
@@ -429,6 +607,8 @@ class World:
                         "lines": source_lines("path" if kind == "path" else "stringio", xml_lines_text if kind == "xml" else text),
                         "entries": [{"name": (e["name"] if kind != "xml" else None), "l1": e["l1"], "l2": e["l2"]} for e in entries],
                         "wellformed": wellformed, "platforms_txt": self.platforms_text if self.custom else None}
+                if tles is not None:
+                    meta["tles_env"] = {"files": tles_files}
                 self.add(job, meta)
 
 
@@ -446,11 +626,30 @@ def build_world(ctx, tmpdir, platforms_text, tag, n_coll, with_bulk=True, illfor
     for ci, n in enumerate(sizes[:n_coll]):
         style = ["named", "none", "mixed"][ci % 3]
         entries = gen_entries(rng, n, style, reg_items)
+        if ci % 2 == 1 or rng.random() < 0.25:
+            entries = with_repeats(rng, entries, style)
         text = render(rng, entries)
         xml, xml_items = xml_text(rng, entries)
         reqs = requests_for(rng, entries, reg_items)
         w.add_reads(entries, text, xml, reqs, True, xml_items, reuse=(ci % 3 == 2))
+        if ci % 3 == 1 or rng.random() < 0.15:
+            # the same given collection, read while TLES names other collections
+            w.add_reads(entries, text, xml, reqs, True, xml_items, tles_files=gen_archive(rng, entries, reqs, reg_items),
+                        kinds=("path", "xml") if rng.random() < 0.7 else ("path", "stringio", "xml"))
         if with_bulk:
+            pairs = [[e["l1"], e["l2"]] for e in entries]
+            ptxt = w.platforms_text if w.custom else None
+            bodies, got = [text], list(pairs)
+            if rng.random() < 0.4:
+                # a second URI of the same source: the same collection again (rendered anew) or other entries
+                e2 = entries if rng.random() < 0.5 else gen_entries(rng, rng.randrange(0, 4), "mixed", reg_items)
+                bodies.append(render(rng, e2))
+                got += [[e["l1"], e["l2"]] for e in e2]
+            w.add({"op": "bulk_plain", "bodies": bodies}, {"op": "bulk_plain", "texts": bodies, "entries": got, "platforms_txt": ptxt})
+            if ci % 2 == 0:
+                body = render(rng, entries)
+                w.add({"op": "bulk_spacetrack", "bodies": [body]},
+                      {"op": "bulk_spacetrack", "texts": [body], "entries": pairs, "platforms_txt": ptxt})
             f1 = w.newfile(text)
             w.add({"op": "bulk_files", "files": [f1]},
                   {"op": "bulk_files", "texts": [text], "entries": [[e["l1"], e["l2"]] for e in entries],
@@ -511,6 +710,12 @@ def correspond(ctx):
                         lines.append("c10bulk " + line_args(source_lines("textfile", t)))
                         idx.append((i, "part"))
                     idx.pop()
+                elif m["op"] in ("bulk_plain", "bulk_spacetrack"):
+                    # io.StringIO(req.text) per body; the bodies of one source one after the other
+                    for t in m["texts"]:
+                        lines.append("c10bulk " + line_args(source_lines("stringio", t)))
+                        idx.append((i, "part"))
+                    idx.pop()
                 elif m["op"] == "bulk_xml":
                     lines.append("c10xml " + line_args([x for it in m["xml_items"] for x in it]))
                 elif m["op"] == "plat":
@@ -567,13 +772,14 @@ def judge(meta, got):
             diff = sorted(set(want.items()) ^ set(have.items()))[:4] if isinstance(have, dict) else have
             return ("platforms_file_map", diff, "leading words -> last token", "read_platform_numbers")
         return None
-    if op in ("bulk_files", "bulk_xml"):
+    if op in ("bulk_files", "bulk_xml", "bulk_plain", "bulk_spacetrack"):
         if meta["entries"] is None:
             return None
         want = ["ok"] + [[a.strip(), b.strip()] for a, b in meta["entries"]]
         if got != want:
             kind = "bulk_xml_empty" if (op == "bulk_xml" and not meta["entries"]) else "bulk_not_all_in_order"
-            site = "read_tles_from_mmam_xml_files" if op == "bulk_xml" else "Downloader.read_tle_files"
+            site = {"bulk_xml": "read_tles_from_mmam_xml_files", "bulk_files": "Downloader.read_tle_files",
+                    "bulk_plain": "Downloader.fetch_plain_tle", "bulk_spacetrack": "Downloader.fetch_spacetrack"}[op]
             return (kind, got if got[0] != "ok" else {"n": len(got) - 1, "first_diff": next(
                 (i for i, (x, y) in enumerate(zip(got[1:], want[1:])) if x != y), min(len(got), len(want)) - 1)},
                 "every entry, in order (%d)" % (len(want) - 1), site)
@@ -623,6 +829,8 @@ def oracle(ctx):
                 if m["op"] == "read" and not m["wellformed"]:
                     continue
                 ctx.count("eval_oracle_" + m["op"])
+                if m["op"] == "read":
+                    ctx.bump("TLES_environment", "names other collections" if m.get("tles_env") else "as found")
                 v = judge(m, got)
                 if v:
                     case = {k: x for k, x in m.items() if k != "lines"}
@@ -648,6 +856,10 @@ def run_meta(meta, tmpdir):
             job["text"] = meta["text"]
         else:
             job["file"] = w.newfile(meta["text"], xml=(meta["kind"] == "xml"))
+        if meta.get("tles_env"):
+            job["tles"] = w.archive(meta["tles_env"]["files"])
+    elif op in ("bulk_plain", "bulk_spacetrack"):
+        job = {"op": op, "bodies": meta["texts"]}
     elif op in ("bulk_files", "bulk_xml"):
         job = {"op": op, "files": [w.newfile(t, xml=(op == "bulk_xml")) for t in meta["texts"]]}
     elif op == "plat":
@@ -665,7 +877,8 @@ def replay(ctx, case):
         got = run_meta(meta, tmpdir)
     finally:
         shutil.rmtree(tmpdir, ignore_errors=True)
-    print("case:", meta["op"], {k: meta[k] for k in ("platform", "kind") if k in meta})
+    print("case:", meta["op"], {k: meta[k] for k in ("platform", "kind") if k in meta},
+          "with TLES naming %d other collection(s)" % len(meta["tles_env"]["files"]) if meta.get("tles_env") else "")
     print("implementation:", json.dumps(got)[:400])
     v = judge(meta, got)
     if v:
